@@ -868,6 +868,16 @@ func checkRefusedCode(ix *index, add addFn) {
 // C19: errors keep their cause (fault-caused half).
 func checkC19(ix *index, add addFn) {
 	sc := ix.sc
+	if sc.Family == "keepalive" {
+		// KeepAlive's error: ErrPingTimeout only if a ping really timed out, the
+		// context's own error (cancelled / deadline) if the caller's context ended
+		checkC13KA(ix, func(rule, detail string, feat map[string]string) {
+			if rule == "ctx" || rule == "timeout" {
+				add("no-false-sentinel", "KeepAlive: "+detail, map[string]string{"via": "C13/" + rule})
+			}
+		})
+		return
+	}
 	checkRefusedCode(ix, add)
 	if sc.Cfg.Client != "base" {
 		checkC19Retry(ix, add)
